@@ -58,3 +58,54 @@ theorem rngInput_inj (h h' : List Event) (w w' e e' : Bytes) (heq : rngInput h w
   exact heq
 
 end Bpp.NonceThm
+
+namespace Bpp.NonceThm
+open Model.Nonce Model.Transcript
+
+theorem le64_length (x : ℕ) : (Model.Nonce.le64 x).length = 8 := by
+  simp [Model.Nonce.le64, Model.Transcript.le64]
+
+/-- concatenation of equally many 32-byte blocks is injective -/
+theorem flatten32_inj (rs rs' : List Bytes) (hlen : rs.length = rs'.length) (h32 : ∀ r ∈ rs, r.length = 32)
+    (h32' : ∀ r ∈ rs', r.length = 32) (tl tl' : Bytes) (h : rs.flatten ++ tl = rs'.flatten ++ tl') : rs = rs' ∧ tl = tl' := by
+  induction rs generalizing rs' with
+  | nil => cases rs' with
+    | nil => exact ⟨rfl, by simpa using h⟩
+    | cons _ _ => simp at hlen
+  | cons r rs ih => cases rs' with
+    | nil => simp at hlen
+    | cons r' rs' =>
+      simp only [List.flatten_cons, List.append_assoc] at h
+      have hr : r.length = r'.length := by rw [h32 r (by simp), h32' r' (by simp)]
+      have h1 := List.append_inj_left h hr
+      have h2 := List.append_inj_right h hr
+      obtain ⟨hrs, htl⟩ := ih rs' (by simpa using hlen) (fun x hx => h32 x (by simp [hx])) (fun x hx => h32' x (by simp [hx])) h2
+      exact ⟨by rw [h1, hrs], htl⟩
+
+/-- **C14 (witness serialisation).** For a fixed number of openings and a fixed extension degree the serialised
+    witness determines every value and every blinding factor: two different witnesses — even of the same commitment
+    — key the transcript RNG differently. -/
+theorem witnessBytes_inj (t : ℕ) (ws ws' : List (ℕ × List Bytes)) (hlen : ws.length = ws'.length)
+    (hw : ∀ w ∈ ws, w.1 < 2 ^ 64 ∧ w.2.length = t ∧ ∀ r ∈ w.2, r.length = 32)
+    (hw' : ∀ w ∈ ws', w.1 < 2 ^ 64 ∧ w.2.length = t ∧ ∀ r ∈ w.2, r.length = 32)
+    (h : witnessBytes ws = witnessBytes ws') : ws = ws' := by
+  induction ws generalizing ws' with
+  | nil => cases ws' with
+    | nil => rfl
+    | cons _ _ => simp at hlen
+  | cons w ws ih => cases ws' with
+    | nil => simp at hlen
+    | cons w' ws' =>
+      obtain ⟨v, rs⟩ := w
+      obtain ⟨v', rs'⟩ := w'
+      simp only [witnessBytes] at h
+      obtain ⟨hv, hrl, hr32⟩ := hw (v, rs) (by simp)
+      obtain ⟨hv', hrl', hr32'⟩ := hw' (v', rs') (by simp)
+      have h1 := List.append_inj_left h (by rw [le64_length, le64_length])
+      have h2 := List.append_inj_right h (by rw [le64_length, le64_length])
+      have hvv : v = v' := le64_inj v v' hv hv' h1
+      obtain ⟨hrs, h3⟩ := flatten32_inj rs rs' (by rw [hrl, hrl']) hr32 hr32' _ _ h2
+      have := ih ws' (by simpa using hlen) (fun x hx => hw x (by simp [hx])) (fun x hx => hw' x (by simp [hx])) h3
+      rw [hvv, hrs, this]
+
+end Bpp.NonceThm
